@@ -1,0 +1,26 @@
+//go:build verif
+
+package gws
+
+import "sync/atomic"
+
+// Scheduling hook for the verification harness in /verif. Compiled only with -tags verif.
+// The harness installs a function that may block the calling goroutine at a named point, which makes
+// an interleaving chosen by the harness deterministic. A schedule forced through these points is one
+// the unhooked code can also take.
+
+var verifSchedFn atomic.Value // func(point string, c *Conn)
+
+// VerifSetSched installs (or, with nil, removes) the scheduling hook.
+func VerifSetSched(f func(point string, c *Conn)) {
+	if f == nil {
+		f = func(string, *Conn) {}
+	}
+	verifSchedFn.Store(f)
+}
+
+func verifSched(point string, c *Conn) {
+	if f, ok := verifSchedFn.Load().(func(string, *Conn)); ok {
+		f(point, c)
+	}
+}
